@@ -1,4 +1,6 @@
 """C02 - holdings equal the net of fills and are valued at the latest price (DESIGN C02: S1..S5)."""
+import ast
+
 from .. import terms as T
 from ..lib import (writers_of_attr, summarise, heap_writes, delta, same, under, V, A, normal, raising, cond_str, loc_attr,
                    inline_all, no_inline, find_terms)
@@ -34,6 +36,8 @@ def s1_ownership(ctx):
     for name, m in sorted(c.methods.items()):
         if m.is_property or (name.startswith('_') and name != '__init__'):
             continue
+        if any(isinstance(d_, ast.Attribute) and d_.attr in ('setter', 'deleter') for d_ in m.node.decorator_list):
+            continue            # assigning the attribute is the caller's act, as with a plain field
         ps = summarise(ctx, m, policy=default_policy)
         wq = any(heap_writes(p, 'buy_quantity') or heap_writes(p, 'sell_quantity') for p in ps)
         if name in ('__init__', 'transact'):
